@@ -12,7 +12,7 @@ import (
 func init() {
 	register("C20", &Spec{
 		Title: "Back-off budget and fork accounting",
-		Explanation: "Decides: (R1) the sleeping call of BackoffWithCfgAndMaxSleep is reachable only past the cancelled-context check, noop=false and the budget test (maxSleep<=0 or total-excluded < maxSleep); (R2) after the sleep every path to a return adds the slept time to totalSleep (and to excludedSleep exactly under the excluded-kind test), updates the per-kind maps and consults CheckKilled; (R3) on exhaustion the error returned is the longest sleeper's (or the argument) and the longest-sleeper search skips excluded kinds; (R4) Clone/Fork copy every accounting field from the receiver and UpdateUsingForked assigns (not adds) them from the fork inside the ancestor test; (R5) the per-call sleep is clamped by maxSleepMs, cancellable, and exponential with a cap. NOT decided: numeric totals of sleeps at run time.",
+		Explanation: "Decides: (R1) the sleeping call of BackoffWithCfgAndMaxSleep is reachable only past the cancelled-context check, noop=false and the budget test (maxSleep<=0 or total-excluded < maxSleep); (R2) after the sleep every path to a return adds the slept time to totalSleep (and to excludedSleep exactly under the excluded-kind test), updates the per-kind maps and consults CheckKilled; (R3) on exhaustion the error returned is the longest sleeper's (or the argument) and the longest-sleeper search skips excluded kinds; (R4) Clone/Fork copy every accounting field from the receiver and UpdateUsingForked assigns (not adds) them from the fork inside the ancestor test; (R6) every function that (re)sets totalSleep also sets excludedSleep; (R5) the per-call sleep is clamped by maxSleepMs, cancellable, and exponential with a cap. NOT decided: numeric totals of sleeps at run time.",
 		Run: runC20,
 	})
 }
@@ -247,11 +247,39 @@ func runC20(c *core.Ctx) {
 			a.check(okk, fname(upd)+" assigns "+fld, st, "", fmt.Sprint("merge does not assign the fork's value (double counting or loss): ", ds))
 			base := p.Prov().Desc(st.Addr.(*ssa.FieldAddr).X)
 			a.check(len(base) == 1 && base[0] == "recv", fname(upd)+" assigns "+fld+" on the receiver", st, "", fmt.Sprint("written object is ", base))
-			g, w := core.Guarded(upd, st, core.PCmp(tokEQL, core.AnyV, func(v ssa.Value) bool {
+			isAncestorWalk := func(v ssa.Value) bool {
+				// the loop variable of `for bo := forked.parent; bo != nil; bo = bo.parent`
+				phi, ok := core.Strip(v).(*ssa.Phi)
+				if !ok {
+					return false
+				}
+				ds := p.Prov().Desc(phi)
+				return core.HasSub(ds, "fld(Backoffer.parent,param#0)") && len(phi.Edges) >= 2
+			}
+			g, w := core.Guarded(upd, st, core.PCmp(tokEQL, isAncestorWalk, func(v ssa.Value) bool {
 				par, ok := v.(*ssa.Parameter)
 				return ok && par == upd.Params[0]
 			}), true)
-			a.check(g, fname(upd)+" "+fld+" inside ancestor test", st, "", "merge happens without the `ancestor == b` test: "+a.w(w))
+			a.check(g, fname(upd)+" "+fld+" inside ancestor test", st, "", "the fork's accounting is merged only for some ancestors (not by walking the whole parent chain up to the receiver): a fork of a fork loses its sleep time: "+a.w(w))
+		}
+	}
+
+	// ---- R6 total and excluded sleep move together -------------------------------------------------
+	{
+		a := rule(c, "C20.R6")
+		fTot := a.field(pkgRetry, "Backoffer", "totalSleep")
+		fExc := a.field(pkgRetry, "Backoffer", "excludedSleep")
+		if fTot != nil && fExc != nil {
+			exc := map[*ssa.Function]bool{}
+			for _, w := range p.WritersOf(fExc) {
+				exc[w.Fn] = true
+			}
+			n := 0
+			for _, w := range p.WritersOf(fTot) {
+				n++
+				a.check(exc[w.Fn], writerKey(w, fTot)+" paired with excludedSleep", w.Instr, "", "totalSleep is (re)set in a function that leaves excludedSleep alone: the budget test uses totalSleep − excludedSleep, so stale excluded time is subtracted from (or added to) the new budget")
+			}
+			a.checkAt(n >= 4, "writers of totalSleep", "-", "", "writers not found")
 		}
 	}
 
